@@ -20,7 +20,8 @@ RULE = ("A: one case = (ragged list state of MC_C13, alphabet, letter mapping, f
         "non-trivial = some row is shorter than, equal to or one longer than the window, or the list has an empty row; distinct by full case")
 
 ALPHABETS = [("ACGT", (0, 3)), ("ACGT", (2, 1)), ("ACTG", (1, 2)), ("ACG", (0, 2)), ("ACGTN", (4, 1)),
-             ("ACDEFGHIKLMNPQRSTVWY*", (5, 20))]
+             ("ACDEFGHIKLMNPQRSTVWY*", (5, 20)),
+             ("=ACMGRSVTWYHKDBN", (4, 9))]        # sixteen letters (the BAM base codes): a power of two above four
 
 
 def _enc(alpha):
